@@ -98,6 +98,75 @@ func blockingCaseHS(t *testing.T, r *Recorder, n uint8, synackDelay time.Duratio
 	r.Case(sc.Name, true, "blocking")
 }
 
+// nackFreesWindowCase: "Send blocks on the next one until an acknowledgement frees a slot" - also
+// when the acknowledgement is a NACK. The window is full; every ACK is lost; the transport
+// duplicates the last DATA packet, so the receiver, which has everything, answers the copy with a
+// NACK naming the sequence number it expects next (the top of the sender's queue). That NACK empties
+// the sender's queue. The blocked Send must return when the NACK has been processed, not only when
+// the resend timer (3 s here) fires.
+func nackFreesWindowCase(t *testing.T, r *Recorder, n uint8) {
+	sc := &GbnScenario{Name: fmt.Sprintf("nack-frees-window-n%d", n), N: n, Latency: 10 * time.Millisecond, Static: 3 * time.Second}
+	f0 := make([]Fault, int(n))
+	f0[int(n)-1] = Fault{Dup: true} // the last DATA packet of the first window arrives twice
+	sc.Faults[0] = cleanHS(0, f0)
+	f1 := make([]Fault, int(n))
+	for i := range f1 {
+		f1[i] = Fault{Drop: true} // the n ACKs are lost; the NACK that follows gets through
+	}
+	sc.Faults[1] = cleanHS(1, f1)
+	var unblockedAfter time.Duration = -1
+	var nackAt time.Duration = -1
+	res := RunGbnBody(t, sc, func(sim *Sim, conns [2]*gbn.GoBackNConn, res *GbnResult) {
+		res.tw.Add(1)
+		go func() {
+			defer res.tw.Done()
+			for {
+				if _, err := conns[1].Recv(); err != nil {
+					return
+				}
+			}
+		}()
+		for i := 0; i < int(n); i++ {
+			if conns[0].Send(payloadFor(0, i, 3)) != nil {
+				return
+			}
+		}
+		t0 := time.Now()
+		done := make(chan struct{})
+		res.tw.Add(1)
+		go func() {
+			defer res.tw.Done()
+			conns[0].Send(payloadFor(0, int(n), 3))
+			close(done)
+		}()
+		select {
+		case <-done:
+			unblockedAfter = time.Since(t0)
+		case <-time.After(20 * time.Second):
+		}
+	})
+	if res.Panic != "" || res.HsErr[0] != "" || res.HsErr[1] != "" {
+		r.Violate("C09/run-failed", res.Panic+res.HsErr[0]+res.HsErr[1], sc)
+		return
+	}
+	for _, e := range res.Events {
+		if e.EP == 0 && e.Kind == "deliver" && e.By == "recvloop" && nackAt < 0 {
+			if m, err := gbn.Deserialize(e.Pkt); err == nil {
+				if k, ok := m.(*gbn.PacketNACK); ok && int(k.Seq) == int(n)%(int(n)+1) {
+					nackAt = e.At
+				}
+			}
+		}
+	}
+	r.Case(sc.Name, true, "nack-frees-window")
+	if nackAt < 0 {
+		return // the scenario did not produce the NACK (nothing to judge)
+	}
+	if unblockedAfter < 0 || unblockedAfter > 500*time.Millisecond {
+		r.Violate("C09/send-stays-blocked-after-window-freed", fmt.Sprintf("window %d full, all ACKs lost, a NACK naming the top of the queue (everything received) was processed: the blocked Send returned after %v (-1ns: not within 20 s); the resend timeout is 3 s, the round trip 20 ms", n, unblockedAfter), sc)
+	}
+}
+
 // pingWindowCase: keepalive pings are DATA packets and take window slots. With
 // ACKs withheld and n-1 messages outstanding, the ping that becomes due fills
 // the window: later Sends must block and no more than n DATA packets may be
@@ -187,6 +256,9 @@ func pingWindowCase(t *testing.T, r *Recorder, n uint8) {
 func TestC09(t *testing.T) {
 	r := NewRecorder(t, "C09")
 	defer r.Close(t)
+	for _, n := range []uint8{1, 2, 5, 20, 254} {
+		nackFreesWindowCase(t, r, n)
+	}
 	queueDiff(r, 2, pick(8, 16), allSeqs(), "queue-exh")
 	queueLarge(r, "queue-large")
 	rng := newRand(9)
